@@ -231,6 +231,9 @@ inproc_pipe_close(void *arg)
 	inproc_pipe *pipe = arg;
 	inproc_pair *pair = pipe->pair;
 
+	if (pair == NULL) {
+		return; // the pipe could not be created completely
+	}
 	for (int i = 0; i < 2; i++) {
 		inproc_queue *queue = &pair->queues[i];
 		nni_mtx_lock(&queue->lock);
@@ -378,6 +381,8 @@ inproc_accept_clients(inproc_ep *srv)
 			          (void **) &spipe, srv->listener)) != 0)) {
 
 				if (cpipe != NULL) {
+					// its close and fini go through the pair
+					cpipe->pair = pair;
 					nni_pipe_close(cpipe->pipe);
 					nni_pipe_rele(cpipe->pipe);
 				} else {
